@@ -58,3 +58,9 @@ CHECK = e1(
          "pointers inside net.Addr / error are treated as nil receivers and not generated; with them "
          "IPAndPortFromAddr((*net.TCPAddr)(nil)) would dereference nil.",
     design="DESIGN.md 2.1, 3 (C01)")
+
+CHECK["stages"] = CHECK["stages"] + [{"name": "race", "pkg": "./checks/c01", "race": True}]
+CHECK["assumptions"] = CHECK["assumptions"] + [
+    "stage race: every row of the call table is called from 4 goroutines at once on private copies of 24 inputs, under "
+    "the Go race detector (free-running; decides data races on package-level or pooled state, not schedules)",
+]
